@@ -559,6 +559,118 @@ type c31Sample struct {
 	Err       string   `json:"error,omitempty"`
 }
 
+// c31GenRequest draws one produce request (model + kmsg form). Partition indexes are
+// distinct within a topic, topic names are distinct.
+func c31GenRequest(t *rapid.T, st *vfkit.Stats, defaultAlg string, info *c31GenInfo) ([]c31Topic, *kmsg.ProduceRequest, c31Sample, int) {
+	flagBias := rapid.SampledFrom([]int{0, 2, 4, 4, 6, 9}).Draw(t, "flagBias")
+
+	hugeBatch := rapid.IntRange(0, 19).Draw(t, "hugeBatch") == 0 // 1 request in 20 carries one batch of 4095..9000 tiny records
+	hugeDone := false
+	nt := rapid.SampledFrom([]int{1, 1, 2, 3}).Draw(t, "nTopics")
+	topics := make([]c31Topic, nt)
+	req := &kmsg.ProduceRequest{Acks: 1, TimeoutMillis: 5000}
+	sample := c31Sample{Topics: nt}
+	codecSet := map[string]bool{}
+	mixedCompressed := 0
+	for ti := range topics {
+		topics[ti].name = rapid.SampledFrom([]string{"orders", "lfs.t", "a-b_c", "T2", "x"}).Draw(t, "topic") + fmt.Sprint(ti)
+		np := rapid.SampledFrom([]int{1, 1, 2, 3}).Draw(t, "nParts")
+		rt := kmsg.ProduceRequestTopic{Topic: topics[ti].name}
+		for pi := 0; pi < np; pi++ {
+			part := c31Part{index: int32(pi*8 + rapid.IntRange(0, 7).Draw(t, "partIndex"))} // distinct per topic
+			nb := rapid.SampledFrom([]int{0, 1, 1, 1, 2, 2, 3}).Draw(t, "nBatches")
+			for bi := 0; bi < nb; bi++ {
+				var recs []vfkit.Record
+				fl := 0
+				nr := 0
+				codecChoices := []int{0, 0, 0, 0, 2, 2, 2, 2, 3, 3, 3, 3, 1, 4}
+				if hugeBatch && !hugeDone {
+					// size class "huge batch": thousands of tiny records (producers batch up to
+					// batch.size bytes, so > 4096 small records per batch is ordinary), 1-3 flagged
+					hugeDone = true
+					nr = rapid.SampledFrom([]int{4095, 4096, 4097, 4097, 6000, 9000}).Draw(t, "hugeRecords")
+					recs = make([]vfkit.Record, nr)
+					for ri := range recs {
+						recs[ri] = vfkit.Record{OffsetDelta: int32(ri), TsDelta: int64(ri), Value: []byte{byte(ri), byte(ri >> 8)}}
+						if ri%1000 == 7 {
+							recs[ri].Key = []byte{byte(ri >> 4)}
+							recs[ri].Headers = []vfkit.RecHeader{{Key: "app", Value: []byte("x")}}
+						}
+					}
+					nflag := rapid.IntRange(1, 3).Draw(t, "hugeFlagged")
+					for k := 0; k < nflag; k++ {
+						idx := rapid.SampledFrom([]int{0, 1, 4094, 4095, nr - 1, nr - 2, nr / 2}).Draw(t, "hugeFlagIndex")
+						if idx >= nr {
+							idx = nr - 1
+						}
+						if !c31IsFlagged(recs[idx]) {
+							recs[idx].Headers = append(recs[idx].Headers, vfkit.RecHeader{Key: "LFS_BLOB", Value: []byte{}})
+							fl++
+						}
+					}
+					codecChoices = []int{0, 0, 2, 3}
+					st.Class(fmt.Sprintf("huge-batch:%d-records", nr))
+				} else {
+					nr = rapid.OneOf(rapid.IntRange(1, 4), rapid.IntRange(1, 20)).Draw(t, "nRecords")
+					recs = make([]vfkit.Record, nr)
+					big := rapid.IntRange(0, 7).Draw(t, "bigValues") == 0
+					for ri := range recs {
+						recs[ri] = c31GenRecord(t, ri, defaultAlg, flagBias, big, info)
+						if c31IsFlagged(recs[ri]) {
+							fl++
+						}
+					}
+				}
+				// gzip/zstd are rarer: the code under test builds a fresh encoder per rewritten batch (tens of ms)
+				b := c31Batch{codec: rapid.SampledFrom(codecChoices).Draw(t, "codec"), flagged: fl}
+				first := rapid.SampledFrom([]int64{0, 1, 1700000000000, -1}).Draw(t, "firstTs")
+				nbh := vfkit.NewBatch(rapid.SampledFrom([]int64{0, 0, 5, 1 << 33}).Draw(t, "baseOffset"), first, recs)
+				// NewBatch renumbers offset deltas 0..n-1 and derives lastOffsetDelta/numRecords
+				nbh.LeaderEpoch = rapid.SampledFrom([]int32{-1, 0, 7}).Draw(t, "leaderEpoch")
+				nbh.MaxTimestamp = rapid.SampledFrom([]int64{nbh.MaxTimestamp, first, first + 12345}).Draw(t, "maxTs")
+				if rapid.IntRange(0, 3).Draw(t, "idempotent") == 0 {
+					nbh.ProducerID = int64(rapid.IntRange(0, 1<<40).Draw(t, "pid"))
+					nbh.ProducerEpoch = int16(rapid.IntRange(0, 100).Draw(t, "pepoch"))
+					nbh.BaseSequence = int32(rapid.IntRange(0, 1<<30).Draw(t, "seq"))
+				}
+				nbh.Attributes = int16(rapid.SampledFrom([]int{0, 0, 0x08, 0x10, 0x18}).Draw(t, "attrBits"))
+				b.hdr = *nbh
+				if err := c31EncodeBatch(&b); err != nil {
+					t.Fatalf("harness: cannot encode input batch: %v", err)
+				}
+				part.batches = append(part.batches, b)
+				part.raw = append(part.raw, b.raw...)
+				sample.Batches++
+				sample.Records += nr
+				sample.Flagged += fl
+				codecSet[c31CodecNames[b.codec]] = true
+				if b.codec != 0 && fl > 0 && fl < nr {
+					mixedCompressed++
+				}
+			}
+			topics[ti].parts = append(topics[ti].parts, part)
+			rt.Partitions = append(rt.Partitions, kmsg.ProduceRequestTopicPartition{Partition: part.index, Records: append([]byte(nil), part.raw...)})
+			sample.Parts++
+		}
+		req.Topics = append(req.Topics, rt)
+	}
+	for c := range codecSet {
+		sample.Codecs = append(sample.Codecs, c)
+		st.Class("codec:" + c)
+	}
+	sort.Strings(sample.Codecs)
+
+	// sanity of the harness itself: the input must be well-formed for the independent decoder
+	for _, tp := range topics {
+		for _, pp := range tp.parts {
+			if _, err := vfkit.DecodeBatches(pp.raw); err != nil {
+				t.Fatalf("harness: generated input does not decode: %v", err)
+			}
+		}
+	}
+	return topics, req, sample, mixedCompressed
+}
+
 func TestVF_C31_Rewrite(t *testing.T) {
 	st := vfkit.NewStats("C31", "rewrite")
 	defer st.Flush()
@@ -572,112 +684,7 @@ func TestVF_C31_Rewrite(t *testing.T) {
 		pre := map[string]bool{"ns31/pre/lfs/2020/01/01/obj-preexisting": true}
 		m := c31Module(fs, defaultAlg, chunk)
 		info := &c31GenInfo{allowBad: rapid.IntRange(0, 7).Draw(t, "allowBadFlags") == 0}
-		flagBias := rapid.SampledFrom([]int{0, 2, 4, 4, 6, 9}).Draw(t, "flagBias")
-
-		hugeBatch := rapid.IntRange(0, 19).Draw(t, "hugeBatch") == 0 // 1 request in 20 carries one batch of 4095..9000 tiny records
-		hugeDone := false
-		nt := rapid.SampledFrom([]int{1, 1, 2, 3}).Draw(t, "nTopics")
-		topics := make([]c31Topic, nt)
-		req := &kmsg.ProduceRequest{Acks: 1, TimeoutMillis: 5000}
-		sample := c31Sample{Topics: nt}
-		codecSet := map[string]bool{}
-		mixedCompressed := 0
-		for ti := range topics {
-			topics[ti].name = rapid.SampledFrom([]string{"orders", "lfs.t", "a-b_c", "T2", "x"}).Draw(t, "topic") + fmt.Sprint(ti)
-			np := rapid.SampledFrom([]int{1, 1, 2, 3}).Draw(t, "nParts")
-			rt := kmsg.ProduceRequestTopic{Topic: topics[ti].name}
-			for pi := 0; pi < np; pi++ {
-				part := c31Part{index: int32(rapid.IntRange(0, 40).Draw(t, "partIndex"))}
-				nb := rapid.SampledFrom([]int{0, 1, 1, 1, 2, 2, 3}).Draw(t, "nBatches")
-				for bi := 0; bi < nb; bi++ {
-					var recs []vfkit.Record
-					fl := 0
-					nr := 0
-					codecChoices := []int{0, 0, 0, 0, 2, 2, 2, 2, 3, 3, 3, 3, 1, 4}
-					if hugeBatch && !hugeDone {
-						// size class "huge batch": thousands of tiny records (producers batch up to
-						// batch.size bytes, so > 4096 small records per batch is ordinary), 1-3 flagged
-						hugeDone = true
-						nr = rapid.SampledFrom([]int{4095, 4096, 4097, 4097, 6000, 9000}).Draw(t, "hugeRecords")
-						recs = make([]vfkit.Record, nr)
-						for ri := range recs {
-							recs[ri] = vfkit.Record{OffsetDelta: int32(ri), TsDelta: int64(ri), Value: []byte{byte(ri), byte(ri >> 8)}}
-							if ri%1000 == 7 {
-								recs[ri].Key = []byte{byte(ri >> 4)}
-								recs[ri].Headers = []vfkit.RecHeader{{Key: "app", Value: []byte("x")}}
-							}
-						}
-						nflag := rapid.IntRange(1, 3).Draw(t, "hugeFlagged")
-						for k := 0; k < nflag; k++ {
-							idx := rapid.SampledFrom([]int{0, 1, 4094, 4095, nr - 1, nr - 2, nr / 2}).Draw(t, "hugeFlagIndex")
-							if idx >= nr {
-								idx = nr - 1
-							}
-							if !c31IsFlagged(recs[idx]) {
-								recs[idx].Headers = append(recs[idx].Headers, vfkit.RecHeader{Key: "LFS_BLOB", Value: []byte{}})
-								fl++
-							}
-						}
-						codecChoices = []int{0, 0, 2, 3}
-						st.Class(fmt.Sprintf("huge-batch:%d-records", nr))
-					} else {
-						nr = rapid.OneOf(rapid.IntRange(1, 4), rapid.IntRange(1, 20)).Draw(t, "nRecords")
-						recs = make([]vfkit.Record, nr)
-						big := rapid.IntRange(0, 7).Draw(t, "bigValues") == 0
-						for ri := range recs {
-							recs[ri] = c31GenRecord(t, ri, defaultAlg, flagBias, big, info)
-							if c31IsFlagged(recs[ri]) {
-								fl++
-							}
-						}
-					}
-					// gzip/zstd are rarer: the code under test builds a fresh encoder per rewritten batch (tens of ms)
-					b := c31Batch{codec: rapid.SampledFrom(codecChoices).Draw(t, "codec"), flagged: fl}
-					first := rapid.SampledFrom([]int64{0, 1, 1700000000000, -1}).Draw(t, "firstTs")
-					nbh := vfkit.NewBatch(rapid.SampledFrom([]int64{0, 0, 5, 1 << 33}).Draw(t, "baseOffset"), first, recs)
-					// NewBatch renumbers offset deltas 0..n-1 and derives lastOffsetDelta/numRecords
-					nbh.LeaderEpoch = rapid.SampledFrom([]int32{-1, 0, 7}).Draw(t, "leaderEpoch")
-					nbh.MaxTimestamp = rapid.SampledFrom([]int64{nbh.MaxTimestamp, first, first + 12345}).Draw(t, "maxTs")
-					if rapid.IntRange(0, 3).Draw(t, "idempotent") == 0 {
-						nbh.ProducerID = int64(rapid.IntRange(0, 1<<40).Draw(t, "pid"))
-						nbh.ProducerEpoch = int16(rapid.IntRange(0, 100).Draw(t, "pepoch"))
-						nbh.BaseSequence = int32(rapid.IntRange(0, 1<<30).Draw(t, "seq"))
-					}
-					nbh.Attributes = int16(rapid.SampledFrom([]int{0, 0, 0x08, 0x10, 0x18}).Draw(t, "attrBits"))
-					b.hdr = *nbh
-					if err := c31EncodeBatch(&b); err != nil {
-						t.Fatalf("harness: cannot encode input batch: %v", err)
-					}
-					part.batches = append(part.batches, b)
-					part.raw = append(part.raw, b.raw...)
-					sample.Batches++
-					sample.Records += nr
-					sample.Flagged += fl
-					codecSet[c31CodecNames[b.codec]] = true
-					if b.codec != 0 && fl > 0 && fl < nr {
-						mixedCompressed++
-					}
-				}
-				topics[ti].parts = append(topics[ti].parts, part)
-				rt.Partitions = append(rt.Partitions, kmsg.ProduceRequestTopicPartition{Partition: part.index, Records: append([]byte(nil), part.raw...)})
-				sample.Parts++
-			}
-			req.Topics = append(req.Topics, rt)
-		}
-		for c := range codecSet {
-			sample.Codecs = append(sample.Codecs, c)
-			st.Class("codec:" + c)
-		}
-		sort.Strings(sample.Codecs)
-
-		// sanity of the harness itself: the input must be well-formed for the independent decoder
-		for _, tp := range topics {
-			for _, pp := range tp.parts {
-				if _, err := vfkit.DecodeBatches(pp.raw); err != nil {
-					t.Fatalf("harness: generated input does not decode: %v", err)
-				}
-			}
-		}
+		topics, req, sample, mixedCompressed := c31GenRequest(t, st, defaultAlg, info)
 
 		header := &protocol.RequestHeader{APIKey: protocol.APIKeyProduce, APIVersion: 9, CorrelationID: 7}
 		res, err := m.rewriteProduceRecords(context.Background(), header, req)
